@@ -22,6 +22,14 @@ into the evidence through chk.count):
                        interpolation __call__
   evaluation points    dyadic points of the domain, points on faces / corners / midpoints of leaves, points outside the
                        domain, the empty list, lists of > 1000 points
+  argument objects     the points argument of get_points_assignement_to_areas / interpolate_points / __call__: fresh lists, or ONE
+                       list / tuple object per history that is the only points argument ever passed ('only') or is passed next
+                       to fresh lists first and last in an observation ('mixed': the answers for the object and for an equal
+                       fresh copy must coincide); the object is used at a random subset of the observations, so that uses lie
+                       before and after restarts / re-runs at equal and at unequal values of the refinement counter (histogram
+                       same-points-object-across-restart:*); the argument must not be modified; the returned assignment lists are
+                       emptied and the question asked again. ndarray arguments (and lists of lists / of arrays) are excluded:
+                       the unchanged code raises TypeError (unhashable) in get_points_in_areas_recursive
   excluded (raise on the unchanged tree, not part of the documented options): no_initial_splitting=True (assert False in
                        initialize_refinement), dim_adaptive=True (TypeError in combiScheme), version 3
 """
@@ -60,13 +68,13 @@ TOL = 1e-9
 
 
 # ------------------------------------------------------------------------------------------------ generator
-def gen_events(rng, steps, lmin, span, dim, auto=False):
+def gen_events(rng, steps, lmin, span, dim, auto=False, p_restart=0.09):
     ev = []
     for k in range(steps):
         r = rng.random()
-        if r < 0.09 and k > 0:
+        if r < p_restart and k > 0:
             ev.append('restart')
-        elif r < 0.17 and k > 0 and dim <= 3:
+        elif r < p_restart + 0.08 and k > 0 and dim <= 3:
             l2 = rng.choice([1, 2, 3] if dim == 2 else [1, 2])
             # automatic_extend_split cannot refine with lmin = lmax (known finding C07-auto-lmin-eq-lmax-raises)
             ev.append(['rerun', l2, l2 + rng.choice(([0, 1, 1, 2] if not auto else [1, 1, 2]) if dim == 2 and l2 < 3
@@ -100,7 +108,23 @@ def gen_case(rng, tier, i):
     c = dict(dim=dim, version=version, nrbe=nrbe, auto=auto, single=single, lmin=lmin, lmax=lmin + span,
              steps=steps, a=[str(Fraction(d[0])) for d in dom], b=[str(Fraction(d[1])) for d in dom],
              fn=fn, seed=rng.randrange(1 << 30), npts=rng.choice([6, 12, 12, 0]))
-    c['events'] = gen_events(rng, steps, lmin, span, dim, auto)
+    # argument re-use: ONE points object per history; 'only' = no other points argument is ever handed to the strategy,
+    # 'mixed' = next to fresh lists (answers for the object and for an equal fresh copy must coincide); `use` = at which
+    # observations the object is used at all (so that calls lie before/after restarts at equal and unequal refinement counts)
+    r = rng.random()
+    if r < 0.55 and dim >= 2 and fn != 3 and rng.random() < 0.7:
+        fn = 3          # histories that re-use the points object mostly carry the polynomial: interpolation values are compared with the model
+        c['fn'] = 3
+        c['poly'] = [[str(Fraction(rng.randrange(-4, 5), 2)) for _ in range(dim)],
+                     [str(Fraction(rng.choice([-3, -1, 1, 2, 3, 5, 6]), 2)) for _ in range(dim)]]
+    if r < 0.35 and dim >= 2:
+        c['reuse'] = dict(mode='only', use=[1] + [int(rng.random() < 0.55) for _ in range(6)], alias=rng.random() < 0.4,
+                          container=rng.choice(['list', 'list', 'tuple']))
+    elif r < 0.55 and dim >= 2:
+        c['reuse'] = dict(mode='mixed', use=[1] + [int(rng.random() < 0.6) for _ in range(6)], container='list')
+    if rng.random() < (0.6 if c.get('reuse') else 0.25):
+        c['spread'] = True
+    c['events'] = gen_events(rng, steps, lmin, span, dim, auto, p_restart=(0.3 if c.get('reuse') else 0.09))
     if fn == 3:
         c['poly'] = [[str(Fraction(rng.randrange(-4, 5), 2)) for _ in range(dim)],
                      [str(Fraction(rng.choice([-3, -1, 1, 2, 3, 5, 6]), 2)) for _ in range(dim)]]
@@ -227,6 +251,8 @@ def impl_run(case):
     b = np.array([float(x) for x in bq])
     seed = case['seed']
     uniform = bool(case.get('uniform'))
+    spread = bool(case.get('spread'))
+    reuse = case.get('reuse')
     rng = random.Random(seed)
     tr = dict(step=0, phase='', compute=[], refined=[], bens=[])
 
@@ -234,6 +260,8 @@ def impl_run(case):
         def calc_error(self, f, norm, volume_weights=None):
             box = _box(f)
             k = 8 if uniform else scripted_benefit(seed, tr['step'], box)
+            if spread:      # widely spread benefits 2^j / 8: (almost always) exactly one area is refined per round
+                k = 2 ** (zlib.crc32(repr((seed, tr['step'], [str(x) for x in box[0]], [str(x) for x in box[1]], 's')).encode()) % 24)
             tr['bens'].append((box, k))
             ev = f.evaluations
             return (k / 8.0) * ev if ev != 0 else k / 8.0
@@ -274,7 +302,12 @@ def impl_run(case):
     def inside(p):
         return all(aq[d] <= p[d] <= bq[d] for d in range(dim))
 
-    def observe(pts):
+    def snapshot(res):
+        return sorted((tuple(float(x) for x in p), _box(area)) for area, cont in res for p in cont)
+
+    def observe(pts, obj=None, alias=False, silent=False):
+        """obj: the persistent list/tuple object of this history holding exactly the points pts (as float tuples); when given,
+        it is the ONLY points argument handed to the strategy in this observation"""
         objs = s.refinement.get_objects()
         paths = _tree_paths(s.root_cell)
         leaves = [[list(_box(o)[0]), list(_box(o)[1]), int(o.coarseningValue), int(o.needExtendScheme),
@@ -288,18 +321,39 @@ def impl_run(case):
         fpts = [tuple(float(x) for x in p) for p in pts]
         back = dict(zip(fpts, pts))
         assign = []
-        for area, cont in s.get_points_assignement_to_areas(list(fpts)):
+        alias_bad = None
+        # silent: no points argument at all is handed to the strategy in this observation
+        res = [] if silent else s.get_points_assignement_to_areas(obj if obj is not None else list(fpts))
+        not_leaf = None
+        for area, cont in res:
             for p in cont:
                 assign.append([list(back[tuple(p)]), list(_box(area)[0]), list(_box(area)[1])])
+            if len(cont) and not_leaf is None and all(area is not o for o in objs):
+                not_leaf = [list(_box(area)[0]), list(_box(area)[1]), list(back[tuple(next(iter(cont)))])]
+        if obj is not None and alias:
+            # returned-object aliasing: empty the returned lists, ask again with the same argument object
+            snap1 = snapshot(res)
+            for area, cont in res:
+                if isinstance(cont, list):
+                    del cont[:]
+            snap2 = snapshot(s.get_points_assignement_to_areas(obj))
+            if snap1 != snap2:
+                alias_bad = 'after emptying the lists returned by get_points_assignement_to_areas the next call with the same ' \
+                            'argument returns %d instead of %d assigned points' % (len(snap2), len(snap1))
         tl = sorted([list(_box(o)[0]), list(_box(o)[1])] for o in _tree_leaves(s.root_cell))
         # the interpolation call of the strategy at the evaluation points inside the domain
-        ipts = [p for p in pts if inside(p)][:40] if case['fn'] == 3 else []
         interp = []
-        if ipts:
-            vals = s([tuple(float(x) for x in p) for p in ipts])
-            interp = [[list(p), _fr(float(np.asarray(v).reshape(-1)[0]))] for p, v in zip(ipts, vals)]
+        if obj is not None:
+            vals = s(obj)
+            interp = [[list(p), _fr(float(np.asarray(v).reshape(-1)[0]))] for p, v in zip(pts, vals)]
+        else:
+            ipts = [p for p in pts if inside(p)][:40] if case['fn'] == 3 else []
+            if ipts:
+                vals = s([tuple(float(x) for x in p) for p in ipts])
+                interp = [[list(p), _fr(float(np.asarray(v).reshape(-1)[0]))] for p, v in zip(ipts, vals)]
         return dict(lmax=[int(x) for x in s.lmax], lmin=[int(x) for x in s.lmin], leaves=leaves, scheme=scheme, coarse=coarse,
-                    assign=sorted(assign), tree_leaves=tl, pts=[list(p) for p in pts], interp=interp)
+                    assign=sorted(assign), tree_leaves=tl, pts=[list(p) for p in pts], interp=interp, alias_bad=alias_bad,
+                    assign_not_leaf=not_leaf)
 
     def pts_now():
         leaves = [_box(o) for o in s.refinement.get_objects()]
@@ -310,7 +364,7 @@ def impl_run(case):
                                         for _ in range(nb)))
         return pts
 
-    def point_sums():
+    def point_sums(nodal=True):
         """per leaf: coefficient sum of the computed component grids at every actual grid point (implementation grid);
         nodal exactness of the strategy's interpolation at area grid points (assigned to the area whose grid they are on)"""
         bad = []
@@ -336,7 +390,7 @@ def impl_run(case):
         if len(cand) > 120:
             cand = random.Random(seed ^ tr['step']).sample(cand, 120)
         nodal_bad, nodal_n = [], 0
-        if cand:
+        if cand and nodal:
             sel = []
             for area, cont in s.get_points_assignement_to_areas(list(cand)):
                 acc = per_leaf.get(_box(area), {})
@@ -349,18 +403,81 @@ def impl_run(case):
                     nodal_n += 1
                     if not abs(got - want) <= TOL * (1 + abs(want)):
                         nodal_bad.append([list(bx[0]), list(bx[1]), [_fr(x) for x in p], got, want])
-        return dict(npoints=npts, bad=bad[:3], nodal_n=nodal_n, nodal_bad=nodal_bad[:3])
+        return dict(npoints=npts, bad=bad[:3], nodal_n=nodal_n, nodal_bad=nodal_bad[:3], per_leaf=per_leaf)
 
     states, inputs = [], []
     abort = None
 
+    # ONE persistent points object per history (argument re-use): dyadic points of the domain incl. corners and the centre
+    PQ, PF, PF_saved = [], None, None
+    if reuse:
+        prng = random.Random(seed ^ 0x5bd1)
+        cand = set()
+        cand.add(tuple(aq)); cand.add(tuple(bq)); cand.add(tuple((x + y) / 2 for x, y in zip(aq, bq)))
+        # the lattice k/8 (d <= 2) resp. k/4 (d = 3) resp. k/2: grid points of the first levels of every area
+        m = {1: 16, 2: 8, 3: 4}.get(dim, 2)
+        for ks in itertools.product(range(m + 1), repeat=dim):
+            cand.add(tuple(aq[d] + (bq[d] - aq[d]) * Fraction(ks[d], m) for d in range(dim)))
+        n_extra = len(cand) + (60 if dim <= 2 else 40)
+        while len(cand) < n_extra:
+            cand.add(tuple(aq[d] + (bq[d] - aq[d]) * Fraction(prng.randrange(0, 33), 32) for d in range(dim)))
+        PQ = sorted(cand)
+        PF = [tuple(float(x) for x in p) for p in PQ]
+        if reuse.get('container') == 'tuple':
+            PF = tuple(PF)
+        PF_saved = list(PF)
+
+    def used_now():
+        u = reuse.get('use') or [1]
+        return bool(u[len(states) % len(u)])
+
     def record(kind, lmin, lmax):
-        pts = pts_now()
-        st = observe(pts)
+        only = bool(reuse) and reuse['mode'] == 'only'
+        mixed = bool(reuse) and reuse['mode'] == 'mixed' and used_now()
+        if only:
+            use = used_now()
+            pts = PQ if use else []
+            st = observe(pts, obj=(PF if use else None), alias=bool(reuse.get('alias')), silent=not use)
+            st['reused'] = int(use)
+        else:
+            first = snapshot(s.get_points_assignement_to_areas(PF)) if mixed else None
+            pts = pts_now()
+            st = observe(pts)
         st['compute'] = sorted(tr['compute'])
         st['refined'] = sorted(tr['refined']) if kind == 'step' else []
-        st['ptsum'] = point_sums() if (len(st['leaves']) <= 40) else None
+        ps = point_sums(nodal=not only) if (len(st['leaves']) <= 40) else None
+        per_leaf = ps.pop('per_leaf') if ps else None
+        st['ptsum'] = ps
+        if only and per_leaf is not None and st['interp']:
+            # nodal exactness at the re-used points: p lies on a computed grid of the leaf it is assigned to
+            val = {tuple(p): v for p, v in st['interp']}
+            bad, n = [], 0
+            for p, bs, be in st['assign']:
+                acc = per_leaf.get((tuple(bs), tuple(be)))
+                fp = tuple(float(x) for x in p)
+                if acc and fp in acc and tuple(p) in val:
+                    n += 1
+                    want = float(np.asarray(f.eval(fp)).reshape(-1)[0])
+                    got = float(val[tuple(p)])
+                    if not abs(got - want) <= TOL * (1 + abs(want)):
+                        bad.append([bs, be, list(p), got, want])
+            ps['nodal_n'] += n
+            ps['nodal_bad'] = (ps['nodal_bad'] + bad)[:3]
+        if mixed:
+            # the persistent object first (above) and last, against an equal fresh copy: identical answers
+            last = snapshot(s.get_points_assignement_to_areas(PF))
+            v_obj = [float(np.asarray(v).reshape(-1)[0]) for v in s(PF)]
+            fresh = snapshot(s.get_points_assignement_to_areas(list(PF_saved)))
+            v_fresh = [float(np.asarray(v).reshape(-1)[0]) for v in s(list(PF_saved))]
+            if not (first == fresh == last):
+                st['reuse_bad'] = 'get_points_assignement_to_areas answers differently for the re-used points object and an equal fresh copy'
+            elif any(not abs(x - y) <= TOL * (1 + abs(y)) for x, y in zip(v_obj, v_fresh)):
+                st['reuse_bad'] = '__call__ answers differently for the re-used points object and an equal fresh copy'
+            st['reused'] = 1
+        if reuse and list(PF) != PF_saved:
+            st['arg_mutated'] = 'the points argument was modified by the strategy'
         st['kind'] = kind
+        st['nref'] = int(s.refinements)
         states.append(st)
         inputs.append(dict(kind=kind, lmin=lmin, lmax=lmax, bens=list(tr['bens']),
                            decs=list(tr['refined']) if kind == 'step' else [], pts=[list(p) for p in pts]))
@@ -603,6 +720,13 @@ def oracle_state(case, st):
             d = combi_defect(dim, grids)
             if d:
                 return ('local-combination', 'area %s..%s (%s): %s' % (list(bx[0]), list(bx[1]), name, d[0]))
+    if st.get('assign_not_leaf'):
+        s, e, p = st['assign_not_leaf']
+        return ('assignment', 'evaluation point %s is assigned to the area object %s..%s which is not (any more) an area of the container'
+                % ([str(x) for x in p], s, e))
+    for key in ('alias_bad', 'reuse_bad', 'arg_mutated'):
+        if st.get(key):
+            return ('argument-reuse', st[key])
     if st.get('ptsum') and st['ptsum']['bad']:
         s, e, p, v = st['ptsum']['bad'][0]
         return ('local-combination', 'area %s..%s: coefficients of the computed grids sum to %s at grid point %s' % (s, e, v, p))
@@ -657,6 +781,17 @@ CORPUS = [
     dict(dim=2, version=2, nrbe=0, auto=False, single=False, lmin=3, lmax=5, steps=4, a=['0', '0'], b=['1', '1'], fn=3, seed=25, npts=12,
          poly=[['1', '2'], ['1/2', '3']]),
     dict(dim=2, version=0, nrbe=0, auto=False, single=False, lmin=1, lmax=1, steps=5, a=['0', '0'], b=['1', '1'], fn=1, seed=26, npts=0),
+    # ONE points object per history, used before and after restarts / re-runs at equal and unequal refinement counts
+    dict(dim=2, version=0, nrbe=1, auto=False, single=False, lmin=1, lmax=3, steps=5, a=['0', '0'], b=['1', '1'], fn=3, seed=30, npts=6,
+         poly=[['2', '-1'], ['1/2', '3/2']], spread=True, events=['step', 'restart', 'step', 'restart', 'step'], reuse=dict(mode='only', use=[1, 1, 0, 1, 0, 1], container='list')),
+    dict(dim=2, version=1, nrbe=0, auto=False, single=False, lmin=1, lmax=2, steps=5, a=['0', '-1'], b=['1', '1'], fn=3, seed=31, npts=6,
+         poly=[['1', '-3/2'], ['1/2', '3']], spread=True, events=['step', ['rerun', 1, 3], 'step', 'step', 'restart'],
+         reuse=dict(mode='only', use=[1, 1, 0, 1, 1, 1], alias=True, container='tuple')),
+    dict(dim=3, version=0, nrbe=1, auto=False, single=True, lmin=1, lmax=2, steps=4, a=['0', '0', '0'], b=['1', '1', '1'], fn=3, seed=32, npts=6,
+         poly=[['1', '0', '-1'], ['1', '2', '1/2']], spread=True, events=['step', 'step', 'restart', 'step'],
+         reuse=dict(mode='mixed', use=[1, 0, 1, 1, 1], container='list')),
+    dict(dim=2, version=2, nrbe=2, auto=False, single=False, lmin=2, lmax=3, steps=4, a=['0', '0'], b=['2', '1'], fn=2, seed=33, npts=6,
+         spread=True, events=['restart', ['rerun', 1, 2], 'step', 'restart'], reuse=dict(mode='only', use=[1, 0, 1, 0, 1], container='list')),
 ]
 
 
@@ -738,6 +873,11 @@ def check_cases(chk, cases):
             chk.count('event=%s' % (e if isinstance(e, str) else 'rerun'))
         if c.get('uniform'):
             chk.count('uniform-refinement')
+        chk.count('points-argument=%s' % ((c['reuse']['mode'] + '/' + c['reuse'].get('container', 'list')) if c.get('reuse') else 'fresh lists'))
+        if c.get('reuse', {}).get('alias'):
+            chk.count('returned-lists-emptied-and-asked-again')
+        if c.get('spread'):
+            chk.count('spread-benefits(one refinement per round)')
         if c.get('nbig'):
             chk.count('points>=%d' % c['nbig'])
         if c['npts'] == 0 and not c.get('nbig'):
@@ -764,6 +904,13 @@ def check_cases(chk, cases):
                                            if b_['kind'] == 'step' and b_['lmax'][0] > a_['lmax'][0]))
         chk.count('max-coarsening=%d' % max(l[2] for s_ in r['states'] for l in s_['leaves']))
         chk.count('interp-values', sum(len(s_.get('interp', [])) for s_ in r['states']))
+        used = [k for k, s_ in enumerate(r['states']) if s_.get('reused')]
+        for i_, j_ in zip(used, used[1:]):
+            if any(r['states'][m_]['kind'] in ('restart', 'init') for m_ in range(i_ + 1, j_ + 1)):
+                same_tree = r['states'][i_]['tree_leaves'] == r['states'][j_]['tree_leaves']
+                chk.count('same-points-object-across-restart:%s-refinement-count,%s' % (
+                    'equal' if r['states'][i_].get('nref') == r['states'][j_].get('nref') else 'unequal',
+                    'same leaves' if same_tree else 'other leaves'))
         chk.count('nodal-points-checked', sum((s_['ptsum'] or {}).get('nodal_n', 0) for s_ in r['states']))
         mr = mres.get(i)
         ok = True
